@@ -980,6 +980,24 @@ func (is *indexSearch) searchTSIDsByBinaryExpr(name []byte, n *influxql.BinaryEx
 		if err != nil {
 			return nil, err
 		}
+	case *influxql.SetLiteral:
+		// tag IN (...) / tag NOT IN (...): the same evaluation as on the select path
+		if n.Op != influxql.IN && n.Op != influxql.NOTIN {
+			return is.searchTSIDsByTimeRange(name)
+		}
+		if len(value.Vals) == 0 {
+			// an empty value list: IN selects nothing (an empty set, not nil: nil means "no
+			// constraint" to the callers), NOT IN everything
+			if n.Op == influxql.IN {
+				return &uint64set.Set{}, nil
+			}
+			return is.searchTSIDsByTimeRange(name)
+		}
+		itr, err := is.seriesByBinaryExprSetLiteral(name, []byte(key.Val), value.Vals, n.Op == influxql.IN)
+		if err != nil {
+			return nil, err
+		}
+		return itr.Ids(), nil
 	default:
 		return is.searchTSIDsByTimeRange(name)
 	}
